@@ -3,6 +3,7 @@
 //! canonicalised observation, both also as a Coq term for the model side.
 mod common;
 mod c13;
+mod c08;
 
 fn main() {
     let args: Vec<String> = std::env::args().collect();
@@ -52,6 +53,8 @@ fn main() {
 fn generate(prop: &str, seed: u64, thorough: bool) -> Vec<serde_json::Value> {
     match prop {
         "C13" => c13::generate(seed, thorough),
+        "C08" => c08::generate(seed, thorough),
+        "C12" => c08::generate_c12(seed, thorough),
         other => { eprintln!("unknown property {}", other); std::process::exit(2); }
     }
 }
@@ -59,6 +62,7 @@ fn generate(prop: &str, seed: u64, thorough: bool) -> Vec<serde_json::Value> {
 fn run_case(prop: &str, id: usize, input: &serde_json::Value) {
     match prop {
         "C13" => c13::run_case(id, input),
+        "C08" | "C12" => c08::run_case(id, input),
         other => { eprintln!("unknown property {}", other); std::process::exit(2); }
     }
 }
